@@ -84,6 +84,9 @@ func funcLitToLambdaExpr(v *ast.FuncLit, ret *ast.Expr) {
 	}
 	var lsh []*ast.Ident
 	for _, p := range v.Type.Params.List {
+		if _, variadic := p.Type.(*ast.Ellipsis); variadic {
+			return // a lambda parameter cannot be variadic
+		}
 		if p.Names == nil {
 			lsh = append(lsh, ast.NewIdent("_"))
 		} else {
@@ -91,7 +94,7 @@ func funcLitToLambdaExpr(v *ast.FuncLit, ret *ast.Expr) {
 		}
 	}
 	if len(v.Body.List) == 1 {
-		if stmt, ok := v.Body.List[0].(*ast.ReturnStmt); ok && len(stmt.Results) == nres {
+		if stmt, ok := v.Body.List[0].(*ast.ReturnStmt); ok && nres > 0 && len(stmt.Results) == nres {
 			*ret = &ast.LambdaExpr{First: v.Pos(), Last: v.Pos(), Lhs: lsh, Rhs: stmt.Results, LhsHasParen: len(lsh) > 1, RhsHasParen: len(stmt.Results) > 1}
 			return
 		}
